@@ -240,6 +240,7 @@ def w_histories(ctx: core.Ctx, arg):
             ap = mdibops.apply_op(mdib, op, memo)
             ctx.count(f'op.{op["op"]}')
             shapes.append(mdibops.op_shape(ap))
+            ctx.case(('tr', mdib_file, variant) + mdibops.op_shape(ap), nontrivial=ap.outcome == 'ok')
             psnap = snap(mdib)
             detail = {**label, 'step': step, 'op': op, 'outcome': ap.outcome}
             for cname, cm, watch, netloc in consumers:
